@@ -14,7 +14,7 @@ type Seq[S any, O any] struct {
 	Init  func() S
 	Ops   func(s S, depth int) []O        // operations enabled in s (small finite menu)
 	Apply func(s S, op O) (string, *Viol) // executes op on the implementation (and the model inside S), returns an observation class and a violation
-	Canon func(s S) string                // canonical form; "" disables de-duplication (pure depth-bounded enumeration)
+	Canon func(s S) string                // canonical form; a nil Canon disables de-duplication (pure depth-bounded enumeration)
 	Clone func(s S) S                     // optional
 	Depth int                             // maximum history length (0 = until fix-point; requires Canon)
 	Kind  string                          // replay kind to register
@@ -56,9 +56,7 @@ func (q *Seq[S, O]) Run(r *Run) {
 	seen := map[string]bool{}
 	init := q.Init()
 	if q.Canon != nil {
-		if c := q.Canon(init); c != "" {
-			seen[c] = true
-		}
+		seen["k:"+q.Canon(init)] = true
 	}
 	r.AddStates(1)
 	frontier := []seqNode[S, O]{{hist: nil, s: init, has: true}}
@@ -111,7 +109,7 @@ func (q *Seq[S, O]) Run(r *Run) {
 				}
 				key := ""
 				if q.Canon != nil {
-					key = q.Canon(s)
+					key = "k:" + q.Canon(s) // an empty canonical form is a legitimate state, not "do not merge"
 				}
 				if key != "" {
 					if seen[key] {
